@@ -65,15 +65,15 @@ def order_cell(args):
     rec = {"ev": "order", "cell": cell, "err": "", "e100": 0, "resolved": True, "ds": []}
     try:
         ds = []
-        for lam in (0.125, 0.0625):
-            o0 = _solve(cell["order"], None, 1.0, lam, "truncated", cell["pol"], "single", seed)[0]
-            o1 = _solve(cell["order"], SV[cell["scheme"]], xif, lam, "truncated", cell["pol"], "single", seed)[0]
+        for lam in (0.0625, 0.03125, 0.015625):
+            o0 = _solve(cell["order"], None, 1.0, lam, "truncated", cell["pol"], cell["shape"], seed)[0]
+            o1 = _solve(cell["order"], SV[cell["scheme"]], xif, lam, "truncated", cell["pol"], cell["shape"], seed)[0]
             ds.append(float(np.abs(o1 - o0).max() / np.abs(o0).max()))
         rec["ds"] = ["%.3e" % d for d in ds]
         if min(ds) < 1e-13:
             rec["resolved"] = False   # below rounding: nothing to classify
         else:
-            rec["e100"] = int(round(100 * math.log2(ds[0] / ds[1])))
+            rec["e100"] = int(round(100 * max(math.log2(ds[0] / ds[1]), math.log2(ds[1] / ds[2]))))
     except Exception as ex:  # noqa: BLE001
         rec["err"] = type(ex).__name__ + ":" + str(ex)[:80]
     return rec
